@@ -810,6 +810,23 @@ func c02ColumnClamp(c *Ctx) {
 			// X is an element of a []string (a source line)
 			ix, ok := ast.Unparen(se.X).(*ast.IndexExpr)
 			if !ok {
+				// a local that holds the current source line: some assignment gives it an element of a []string
+				if o := objOf(info, se.X); o != nil {
+					ast.Inspect(fi.Decl.Body, func(m ast.Node) bool {
+						if as, isAs := m.(*ast.AssignStmt); isAs && len(as.Lhs) == len(as.Rhs) {
+							for i, l := range as.Lhs {
+								if objOf(info, l) == o {
+									if ix2, isIx := ast.Unparen(as.Rhs[i]).(*ast.IndexExpr); isIx {
+										ix, ok = ix2, true
+									}
+								}
+							}
+						}
+						return true
+					})
+				}
+			}
+			if !ok {
 				return true
 			}
 			if t := info.TypeOf(ix.X); t == nil || t.String() != "[]string" {
@@ -1446,6 +1463,24 @@ func c02ExprTypestate(c *Ctx) {
 	bad := ""
 	for _, r := range rets {
 		target := r.Site
+		// the returned value is a literal that sets one of the two fields to something other than nil
+		if ret := r.Inner.(*ast.ReturnStmt); len(ret.Results) == 1 {
+			e := ast.Unparen(ret.Results[0])
+			if u, ok := e.(*ast.UnaryExpr); ok && u.Op == token.AND {
+				e = ast.Unparen(u.X)
+			}
+			if cl, ok := e.(*ast.CompositeLit); ok && typeQName(info.TypeOf(cl)) == "internal/parser.PromQLExpr" {
+				set := false
+				for _, f := range []string{"Query", "SyntaxError"} {
+					if v := litField(cl, f); v != nil && !isNilIdent(info, v) {
+						set = true
+					}
+				}
+				if set {
+					continue
+				}
+			}
+		}
 		if ok, _ := fl.MustPass(fl.Entry(), func(s Site) bool { return s == target }, false, isStore); !ok {
 			bad = p.Pos(r.Inner.Pos())
 		}
